@@ -32,6 +32,9 @@ Sigs == {"none", "valid", "invalid", "wrapped", "wrapped_ownref", "wrapped_prefi
 \* version_*: another Version than the string "2.0" (an older one; another spelling of the number two);
 \* stale26h / future26h: IssueInstant 26 hours away -- outside the window by less than any time-zone offset
 Muts == {"none", "dest_foreign", "dest_absent", "dest_other_binding", "stale", "future", "stale26h", "future26h", "version_11", "version_2",
+         \* stale_offset / future_offset: IssueInstant 30 hours away, written as local time with a numeric zone designator
+         \* (+14:00 / -12:00) -- not the UTC form SAML demands; read without the designator it would fall inside the window
+         "stale_offset", "future_offset",
          "wrong_root", "schema", "schema_child",      \* a required attribute / a required child element is missing
          "garbled_base64", "garbled_deflate", "truncated_xml", "not_xml"}
 \* issuerKey: metadata holds a signing key for the requester, or none
@@ -71,7 +74,7 @@ Signature ==
        ELSE IF scn.sig = "valid" THEN Goto("schema")
        ELSE IF scn.sig = "invalid" /\ scn.certOnly /\ ~Fixed THEN Goto("schema")      \* pinned: "if verified or only_valid_cert"
        ELSE Refuse                                          \* invalid; wrapped (repaired _check_signature)
-Schema == pc = "schema" /\ IF scn.mut \in {"schema", "schema_child"} THEN Refuse ELSE Goto("verify")
+Schema == pc = "schema" /\ IF scn.mut \in {"schema", "schema_child", "stale_offset", "future_offset"} THEN Refuse ELSE Goto("verify")
 \* Request._verify
 DestChecked == scn.endpoint = "configured" \/ Fixed
 Verify ==
@@ -82,7 +85,7 @@ Verify ==
        ELSE verdict' = "hand" /\ pc' = "done" /\ UNCHANGED scn
 
 \* ---- contract
-MustRefuse == \/ scn.mut \in {"dest_foreign", "stale", "future", "stale26h", "future26h", "version_11", "version_2", "wrong_root", "schema", "schema_child", "garbled_base64",
+MustRefuse == \/ scn.mut \in {"dest_foreign", "stale", "future", "stale26h", "future26h", "version_11", "version_2", "wrong_root", "schema", "schema_child", "stale_offset", "future_offset", "garbled_base64",
                               "garbled_deflate", "truncated_xml", "not_xml"}
               \/ scn.sig \in {"invalid", "wrapped", "wrapped_ownref", "wrapped_prefix"}
               \/ (scn.sig # "none" /\ scn.issuerKey = "nokey")          \* a signature must verify under the issuer's metadata key
